@@ -31,16 +31,15 @@ class NonTermination(Exception):
 
 
 class _TableSubset(SubsetProblem):
-    """obj_j(x) = w_j * ( sum_i s_j[x_i] + sum_{a<b} pair_j[x_a][x_b] );
-    ineqcv_i(x) = w * max(0, sum_i cw_i[x_i] - cap_i);  eqcv_i(x) = w * |sum_i ew_i[x_i] - target_i|.
+    """obj_j(x) = w_j * ( sum_a posw_j[a] * s_j[x_a] + sum_{a<b} pair_j[x_a][x_b] + sum_a opair_j[x_a][x_{a+1}] );
+    ineqcv_i(x) = w * max(0, sum_a pw_i[a] * cw_i[x_a] - cap_i);  eqcv_i(x) = w * |sum_a pw_i[a] * ew_i[x_a] - target_i|.
+    posw / pw default to 1 (order-symmetric); `posw`, `opair` (a NON-symmetric table read over consecutive positions, like
+    (female, male) pairs) and `pw` make the value depend on the ORDER of the decision vector.
     Defined for index vectors of any length (the sorting optimisers evaluate single members)."""
 
     def __init__(self, spec):
         cand = numpy.array(spec["cand"], dtype="int64")
-        self._t_pos = {int(c): i for i, c in enumerate(spec["cand"])}
-        self._t_obj = [(list(map(float, o["s"])), o.get("pair")) for o in spec["obj"]]
-        self._t_ineq = [(list(map(float, c["w"])), float(c["cap"])) for c in spec.get("ineq", [])]
-        self._t_eq = [(list(map(float, c["w"])), float(c["target"])) for c in spec.get("eq", [])]
+        self._retable(spec)
         self.n_evalfn = 0
         self.limit = None
         super().__init__(
@@ -49,36 +48,56 @@ class _TableSubset(SubsetProblem):
             nineqcv=len(self._t_ineq), ineqcv_wt=numpy.array(spec.get("ineq_wt", [1.0] * len(self._t_ineq)), dtype=float),
             neqcv=len(self._t_eq), eqcv_wt=numpy.array(spec.get("eq_wt", [1.0] * len(self._t_eq)), dtype=float))
 
+    def _retable(self, spec):
+        """the fixture's private objective data (NOT a library attribute)"""
+        self._t_pos = {int(c): i for i, c in enumerate(spec["cand"])}
+        self._t_obj = [(list(map(float, o["s"])), o.get("pair"), o.get("posw"), o.get("opair")) for o in spec["obj"]]
+        self._t_ineq = [(list(map(float, c["w"])), float(c["cap"]), c.get("pw")) for c in spec.get("ineq", [])]
+        self._t_eq = [(list(map(float, c["w"])), float(c["target"]), c.get("pw")) for c in spec.get("eq", [])]
+
     def evalfn(self, x, *args, **kwargs):
         self.n_evalfn += 1
         if self.limit is not None and self.n_evalfn > self.limit:
             raise NonTermination(f"more than {self.limit} objective evaluations in one minimize() call")
         pos = self._t_pos
         ix = [pos[int(v)] for v in x]
+        m = len(ix)
         obj = numpy.empty(len(self._t_obj))
-        for j, (s, pair) in enumerate(self._t_obj):
+        for j, (s, pair, posw, opair) in enumerate(self._t_obj):
             t = 0.0
-            for i in ix:
-                t += s[i]
+            if posw is None:
+                for i in ix:
+                    t += s[i]
+            else:
+                for a in range(m):
+                    t += posw[a % len(posw)] * s[ix[a]]
             if pair is not None:
-                for a in range(len(ix)):
+                for a in range(m):
                     ra = pair[ix[a]]
-                    for b in range(a + 1, len(ix)):
+                    for b in range(a + 1, m):
                         t += ra[ix[b]]
+            if opair is not None:
+                for a in range(m - 1):
+                    t += opair[ix[a]][ix[a + 1]]
             obj[j] = t
         g = numpy.empty(len(self._t_ineq))
-        for j, (w, cap) in enumerate(self._t_ineq):
+        for j, (w, cap, pw) in enumerate(self._t_ineq):
             t = 0.0
-            for i in ix:
-                t += w[i]
+            for a in range(m):
+                t += w[ix[a]] * (1.0 if pw is None else pw[a % len(pw)])
             g[j] = t - cap if t > cap else 0.0
         h = numpy.empty(len(self._t_eq))
-        for j, (w, tg) in enumerate(self._t_eq):
+        for j, (w, tg, pw) in enumerate(self._t_eq):
             t = 0.0
-            for i in ix:
-                t += w[i]
+            for a in range(m):
+                t += w[ix[a]] * (1.0 if pw is None else pw[a % len(pw)])
             h[j] = abs(t - tg)
         return self.obj_wt * obj, self.ineqcv_wt * g, self.eqcv_wt * h
+
+
+def order_dependent(spec):
+    return spec["kind"] == "subset" and (any(o.get("posw") or o.get("opair") for o in spec["obj"]) or
+                                         any(c.get("pw") for c in spec.get("ineq", []) + spec.get("eq", [])))
 
 
 def _vec_eval(self, x):
@@ -102,12 +121,16 @@ def _vec_eval(self, x):
     return self.obj_wt * obj, self.ineqcv_wt * g, self.eqcv_wt * h
 
 
-def _vec_init(self, spec, base, dtype):
-    lo = numpy.array(spec["lo"], dtype=dtype)
-    hi = numpy.array(spec["hi"], dtype=dtype)
+def _vec_retable(self, spec):
     self._t_obj = spec["obj"]
     self._t_ineq = [(list(map(float, c["w"])), float(c["cap"])) for c in spec.get("ineq", [])]
     self._t_eq = [(list(map(float, c["w"])), float(c["target"])) for c in spec.get("eq", [])]
+
+
+def _vec_init(self, spec, base, dtype):
+    lo = numpy.array(spec["lo"], dtype=dtype)
+    hi = numpy.array(spec["hi"], dtype=dtype)
+    _vec_retable(self, spec)
     self.n_evalfn = 0
     base.__init__(
         self, ndecn=len(spec["lo"]), decn_space=numpy.stack([lo, hi]), decn_space_lower=lo, decn_space_upper=hi,
@@ -117,6 +140,8 @@ def _vec_init(self, spec, base, dtype):
 
 
 class _TableReal(RealProblem):
+    _retable = _vec_retable
+
     def __init__(self, spec):
         _vec_init(self, spec, RealProblem, float)
 
@@ -125,6 +150,8 @@ class _TableReal(RealProblem):
 
 
 class _TableInteger(IntegerProblem):
+    _retable = _vec_retable
+
     def __init__(self, spec):
         _vec_init(self, spec, IntegerProblem, "int64")
 
@@ -133,6 +160,8 @@ class _TableInteger(IntegerProblem):
 
 
 class _TableBinary(BinaryProblem):
+    _retable = _vec_retable
+
     def __init__(self, spec):
         _vec_init(self, spec, BinaryProblem, "int64")
 
@@ -142,6 +171,51 @@ class _TableBinary(BinaryProblem):
 
 def build(spec):
     return {"subset": _TableSubset, "real": _TableReal, "integer": _TableInteger, "binary": _TableBinary}[spec["kind"]](spec)
+
+
+_DT = {"real": float, "integer": "int64", "binary": "int64"}
+
+
+def apply_setters(prob, spec):
+    """Setter history: turn an already constructed problem object into the problem described by `spec` using only the
+    PUBLIC property setters (ndecn, decn_space, decn_space_lower/upper, nineqcv, neqcv, obj_wt, ineqcv_wt, eqcv_wt);
+    the number of objectives is kept.  The fixture's private objective tables are swapped alongside."""
+    assert len(spec["obj"]) == prob.nobj
+    prob._retable(spec)
+    if spec["kind"] == "subset":
+        cand = numpy.array(spec["cand"], dtype="int64")
+        prob.ndecn = spec["k"]
+        prob.decn_space = cand
+        prob.decn_space_lower = numpy.repeat(int(cand.min()), spec["k"])
+        prob.decn_space_upper = numpy.repeat(int(cand.max()), spec["k"])
+    else:
+        lo = numpy.array(spec["lo"], dtype=_DT[spec["kind"]])
+        hi = numpy.array(spec["hi"], dtype=_DT[spec["kind"]])
+        prob.ndecn = len(spec["lo"])
+        prob.decn_space = numpy.stack([lo, hi])
+        prob.decn_space_lower = lo
+        prob.decn_space_upper = hi
+    prob.obj_wt = numpy.array(spec.get("obj_wt", [1.0] * len(spec["obj"])), dtype=float)
+    prob.nineqcv = len(spec.get("ineq", []))
+    prob.ineqcv_wt = numpy.array(spec.get("ineq_wt", [1.0] * len(spec.get("ineq", []))), dtype=float)
+    prob.neqcv = len(spec.get("eq", []))
+    prob.eqcv_wt = numpy.array(spec.get("eq_wt", [1.0] * len(spec.get("eq", []))), dtype=float)
+    return prob
+
+
+def build_hist(spec, hist):
+    """the problem `spec`, either constructed directly (hist None) or constructed as `hist` and then changed through the setters"""
+    if hist is None:
+        return build(spec)
+    return apply_setters(build(hist), spec)
+
+
+def public_view(prob):
+    """what the public properties of the problem say its decision space / shape is"""
+    return dict(ndecn=int(prob.ndecn), decn_space=numpy.asarray(prob.decn_space).tolist(),
+                lower=numpy.asarray(prob.decn_space_lower).tolist(), upper=numpy.asarray(prob.decn_space_upper).tolist(),
+                nobj=int(prob.nobj), obj_wt=prob.obj_wt.tolist(), nineqcv=int(prob.nineqcv), neqcv=int(prob.neqcv),
+                ineqcv_wt=prob.ineqcv_wt.tolist(), eqcv_wt=prob.eqcv_wt.tolist())
 
 
 # ----------------------------------------------------------------------------
